@@ -1,5 +1,6 @@
 import Juniper.Model.Iter
 import Juniper.Spec.Seq
+import Juniper.Proofs.Skeleton
 /-!
 # Denotation of iterator machines (framework for C07)
 
